@@ -226,6 +226,15 @@ func c18(g *Gen) {
 			c18closureCase(g, ctx, graph, "exhaustive-digraphs")
 		}
 	}
+	// ---- fixed: a package with 3 (5, 6, 7) direct importers and one indirect one (slices with spare capacity)
+	for _, nd := range []int{3, 5, 6, 7} {
+		graph := map[string][]string{"x": nil, "a/indirect": {"m/d0"}}
+		for k := 0; k < nd; k++ {
+			graph[fmt.Sprintf("m/d%d", k)] = []string{"x"}
+		}
+		ctx := &generator.Context{Universe: c18universe(graph, nil)}
+		c18closureCase(g, ctx, graph, "several-direct-one-indirect")
+	}
 	// ---- random: rule stacks on real directory trees + universes
 	n := g.N(250, 5000)
 	for i := 0; i < n; i++ {
@@ -388,4 +397,18 @@ func c18closureCase(g *Gen, ctx *generator.Context, graph map[string][]string, c
 		it = append(it, list(atom(k), atoms(tc[k])))
 	}
 	g.Emit("C18.closure", c18graphSexp(graph), list(it...), cls)
+	// the direct importers, asked for AFTER the closure was computed from them: still the direct ones
+	inc := ctx.IncomingImports()
+	var qs []string
+	for q := range inc {
+		qs = append(qs, q)
+	}
+	sort.Strings(qs)
+	var di []string
+	for _, q := range qs {
+		v := append([]string{}, inc[q]...)
+		sort.Strings(v)
+		di = append(di, list(atom(q), atoms(v)))
+	}
+	g.Emit("C18.incoming", c18graphSexp(graph), list(di...), cls, "direct-importers-after-closure")
 }
